@@ -13,7 +13,7 @@ import os, argparse, random, re, sys, itertools
 SCHEMES = ['http','https','ws','wss','ftp','file','non-spec','x','a+b-c.d','HTTP','hTtPs','FILE','htt','httpss','fil','blob','mailto','','1ab','h ttp','wS','FtP']
 AFTER = ['//','//','//','/','','\\\\','\\/','///','////','/\\']
 USER = ['','','','u@','u:p@','user:pw@',':pw@',':@','@','a@b@','u:p:q@','us/er@','u?@','u#@','\u00fcser:p\u00e4ss@','%41:%42@','u%@','[u]@',"u;=@",'u\\@']
-LABELS = [str((1 << 64) + 1), '0x%x' % ((1 << 64) + 1), '0%o' % ((1 << 64) + 5), '0x3000000000000007f000001', str((1 << 32) + 1), '0x%x' % ((1 << 32) * 7 + 9), 'a'*63,'a'*64,'a'*70,'xn--'+'a'*60,'h','host','example','EXAMPLE','ex-ample','a--b','ab--c','-a','a-','xn--exmple-cua','XN--EXMPLE-CUA','xn--','xn--a','\u00e4','b\u00fccher','\u05d0','\u05d0a','1\u05d0','a\u200d','\u0628\u200d','\u0645\u0660','\uff41','\u00df','\u03c2','%41','%c3%a4','%e4','a%','%zz','\u00ad','a\u0338','<\u0338','=\u0338','>\u0338','<%CC%B8','a_b','a~b','a!b',"a'b",'a*b','0','1','08','0x','0x1f','0XAB','4294967295','4294967296','256','255','999999999999','00000000001','0x100000000','1e3','a\u0301','\U0001f600','xn--80ak6aa92e','xn--nxasmq6b','faß','\u200c','a\u200cb','\u0644\u200c\u0627','%F0%9F%92%A9','%80','\ufffd']
+LABELS = ['%C3%A4%', '%C3%A4%zz', '%E4%BD%A0%4', '%c3%a4%.', 'a%C3%A4%2', '%FF%', str((1 << 64) + 1), '0x%x' % ((1 << 64) + 1), '0%o' % ((1 << 64) + 5), '0x3000000000000007f000001', str((1 << 32) + 1), '0x%x' % ((1 << 32) * 7 + 9), 'a'*63,'a'*64,'a'*70,'xn--'+'a'*60,'h','host','example','EXAMPLE','ex-ample','a--b','ab--c','-a','a-','xn--exmple-cua','XN--EXMPLE-CUA','xn--','xn--a','\u00e4','b\u00fccher','\u05d0','\u05d0a','1\u05d0','a\u200d','\u0628\u200d','\u0645\u0660','\uff41','\u00df','\u03c2','%41','%c3%a4','%e4','a%','%zz','\u00ad','a\u0338','<\u0338','=\u0338','>\u0338','<%CC%B8','a_b','a~b','a!b',"a'b",'a*b','0','1','08','0x','0x1f','0XAB','4294967295','4294967296','256','255','999999999999','00000000001','0x100000000','1e3','a\u0301','\U0001f600','xn--80ak6aa92e','xn--nxasmq6b','faß','\u200c','a\u200cb','\u0644\u200c\u0627','%F0%9F%92%A9','%80','\ufffd']
 TLDS = ['xn--2da','\u0105','%2Ecom','com','org','de','','\u3002jp','\uff0ecom','.','0','1','0x7f','09','0x','1.','COM']
 IPV4 = ['1.2.3.4.5.6.7','1.2.3.4.5.6.7.8.9.','\u0131.2.3.4','1.2.3.\u0134','0x\u0141','0\u0178f.1','1\u012e2.3.4','1.2.3.4','127.1','0x7f.1','0177.0.0.1','1.2.3','1.2.3.4.','1.2.3.4.5','1..2','256.1.1.1','1.256.1.1','1.1.1.256','1.1.256','1.1.65535','1.1.65536','1.16777215','1.16777216','4294967295','4294967296','0xffffffff','0x100000000','08','09.1','0x','0x.1','1.0x','00000000000000000001','077777777777','037777777777','040000000000','1.2.3.08','1.2.3.4x','0x1g','.1','1.','a.1','0xx','0x1x','1x','x','0X1.0x2.0X3.4','1.2.0x','0.0.0.0','255.255.255.255','0x7F000001','017700000001','1.2.3.4..','..','1.2.3.0x100','1.2.65536','0.0.0.256']
 IPV6 = ['[::1.2.3.4294967297]','[::ffff:0.42949672970.0.1]','[1:2:3:4:5:6:1.2.12884901891.4]','[::100000001]','[::10001]','[::1.2.3.256]','[::1.2.3.18446744073709551617]','[\u0131::1]','[1::\u0162]','[\uff41::]','[::\U00010041]','[1:\u0132:3::]','[::1.\u0132.3.4]','[::]','[::1]','[1::]','[1:2:3:4:5:6:7:8]','[1:2:3:4:5:6:7::]','[::2:3:4:5:6:7:8]','[1::8]','[1:0:0:2:0:0:0:3]','[0:0:1:0:0:1:0:0]','[1:0:0:0:1:0:0:1]','[::1.2.3.4]','[::ffff:1.2.3.4]','[1:2:3:4:5:6:1.2.3.4]','[1:2:3:4:5:6:7:1.2.3.4]','[::1.2.3]','[::1.2.3.4.5]','[::01.2.3.4]','[::256.1.1.1]','[::1.2.3.4','[1:2:3:4:5:6:7:8:9]','[1::2::3]','[:1]','[1:]','[12345::]','[g::]','[::1]x','[FFFF:AbCd::0001]','[0:0:0:0:0:0:0:0]','[1:2:3:4:5:6:7]','[::.1.2.3]','[1:2:3:4:5:6::1.2.3.4]','[::1.2.3.4:5]','[::0.0.0.0]','[::255.255.255.255]','[0:1:0:1:0:1:0:1]','[1:0:0:1:0:0:0:0]','[]','[:]','[:::]','[1:2:3:4:5:6:7:8::]','[::1:2:3:4:5:6:7:8]','[1:2:3:4::5:6:7:8]','[1::2:3:4:5:6:7]','[0::0]','[::00001]','[::1.2.3.4.]','[::1.2..3]','[1:2:3:4:5:1.2.3.4]','[::10.0.0.1]','[::1.02.3.4]','[::1.2.3.300]']
@@ -22,8 +22,8 @@ PORTS = ['','','','',':',':80',':443',':21',':0',':8080',':65535',':65536',':000
 SEGS = ['C:d','c|x','a','b','c','.','..','%2e','%2E','.%2e','%2e.','%2E%2e','%2e%2E','.%2E','...','','x y','C:','C|','c|','d:','\u00e4','%','%g1','?','a;b',"a'b",'a`b','{x}','a\\b','a%5Cb','~','\x7f','a\x01','%00','\U0001f600','^','|','a|b','%7C','C%7C','%2e%2e%2e','.%2e.','\u0080','\u07ff','\u0800','\ud7ff','\ue000','\uffff','\U00010000','\U0010ffff']
 QUERIES = ['','','?','?q','?a=b&c=d',"?it's",'?a b','?"x"','?<>','?\u00e4=\u00f6','?%zz','?a#b','??','?\x7f','?`{}','?%27','?a=1&a=2&b','?+&=%26','?\U0001f600']
 FRAGS = ['','','#','#f','#a b','#`x`','#"<>"','#\u00e4','#%zz','##','#a#b','#\x00x','#{}','#\U0001f600','#\x7f']
-RELS = ['file://C:/x','file://c|/d','//C:/x','\\\\c|\\d','file://C:','file://C:?q#f','//c|','','.','..','../..','../../..','./','../','/x','//h','//h:8/p','///p','?q','#f','x:y','C|/','C:/x','c|','\\\\x','\\x','/\\h','http:','http:x','http:/x','http://x','https:x','file:','file:x','file:/x','file:..','non-spec:x','a/../b','a/./b/','%2e%2e/x','.%2e','x?y#z','  y  ','/.//p','//','/..//p','..//p','C|','/C|/x','//C|/x','///C|','?','#','x/','%2E','..\\x','ws:x','ftp:/x','\\\\h\\p','/C:','C|\\x','file:C|/x','file:/C|','file://C|/x','file:///C|','//localhost/x','file://localhost/x','file://LOCALHOST','\t/ x\n','#\n','?\t']
-STARTS = ['file://C:/x','file://c|/d','a:/.//p','web+demo:/a/..//b/c','http://u:p@h:81/a/b?q#f','https://h/','https://h:443/','http://h:80/','file:///C:/a/b','file://host/p','file:///','ws://h/p?x','ftp://h:21/x','non-spec://u@h:1/a/b?q#f','non-spec://h','non-spec:/p/q','non-spec:opaque path ?q#f','non-spec:op  ','non-spec:///p','non-spec:/.//p','non-spec://h//p','blob:http://h/x','mailto:a@b','http://[::1]:8/','http://1.2.3.4/','x:','http://h/?a=1&b=2','file:///C:/','file://h/C:/x','non-spec:/','non-spec://','wss://h:444/','non-spec:x  #f','non-spec:x  ?q','http://h/a/b/c/../d?x=1&y=2#frag','blob:https://h:8/p','blob:file:///x','blob:x']
+RELS = ['http:/', 'https:/', 'ws:/', 'ftp:/', 'http:', 'file:/', 'file:', 'non-spec:/', 'file://C:/x','file://c|/d','//C:/x','\\\\c|\\d','file://C:','file://C:?q#f','//c|','','.','..','../..','../../..','./','../','/x','//h','//h:8/p','///p','?q','#f','x:y','C|/','C:/x','c|','\\\\x','\\x','/\\h','http:','http:x','http:/x','http://x','https:x','file:','file:x','file:/x','file:..','non-spec:x','a/../b','a/./b/','%2e%2e/x','.%2e','x?y#z','  y  ','/.//p','//','/..//p','..//p','C|','/C|/x','//C|/x','///C|','?','#','x/','%2E','..\\x','ws:x','ftp:/x','\\\\h\\p','/C:','C|\\x','file:C|/x','file:/C|','file://C|/x','file:///C|','//localhost/x','file://localhost/x','file://LOCALHOST','\t/ x\n','#\n','?\t']
+STARTS = ['https://h:0/', 'non-spec://h:0', 'file://C:/x','file://c|/d','a:/.//p','web+demo:/a/..//b/c','http://u:p@h:81/a/b?q#f','https://h/','https://h:443/','http://h:80/','file:///C:/a/b','file://host/p','file:///','ws://h/p?x','ftp://h:21/x','non-spec://u@h:1/a/b?q#f','non-spec://h','non-spec:/p/q','non-spec:opaque path ?q#f','non-spec:op  ','non-spec:///p','non-spec:/.//p','non-spec://h//p','blob:http://h/x','mailto:a@b','http://[::1]:8/','http://1.2.3.4/','x:','http://h/?a=1&b=2','file:///C:/','file://h/C:/x','non-spec:/','non-spec://','wss://h:444/','non-spec:x  #f','non-spec:x  ?q','http://h/a/b/c/../d?x=1&y=2#frag','blob:https://h:8/p','blob:file:///x','blob:x']
 NAMES = ['a','b','z','aa','A','\u00e4','\ue000','\uffff','\U00010000','\U0001f600','\U0001f601','\U0001f3ff','\U0001f400','\ufb00','\ud7ff','','a b','a+b','a&b','a=b','%41','~','*','ab','abc','abd','\u007f','\u0080','\u07ff','\u0800','\U0010ffff','\ufffd']
 VALUES = ['','1','x y','a&b=c','%41','+','\u00e4','\U0001f600','v','=','?','#']
 SETTERS = ['href','protocol','username','password','host','hostname','port','pathname','search','hash']
@@ -44,7 +44,7 @@ SETVALS = {
  'href': ['http://h/','https://u:p@h:444/p?q#f','file:///C:/x','non-spec:opaque','non-spec://h/p','','x','http://','//h','http://h:99999/','non-spec:/.//p','HTTP://H/%2e/','http://h/?a=1&b=2','http://a b/','\thttp://h/\n','non-spec:x  ','file://localhost/p','blob:http://h/'],
 }
 # structured start URLs: shape x query x fragment (null, empty-but-present, text; trailing spaces matter for opaque paths)
-SHAPES = ['http://h/p', 'http://u:p@h:81/a/b', 'https://h', 'file:///p', 'file://h/p', 'file:///C:/x', 'non-spec://h/p', 'non-spec://h',
+SHAPES = ['http://h:0/p', 'wss://h:00', 'http://h/p', 'http://u:p@h:81/a/b', 'https://h', 'file:///p', 'file://h/p', 'file:///C:/x', 'non-spec://h/p', 'non-spec://h',
           'non-spec://u@h:1', 'non-spec:/p/q', 'non-spec:/.//p', 'non-spec://', 'non-spec:op', 'non-spec:op  ', 'non-spec:', 'blob:http://h/x', 'ws://h:81/']
 SQUERIES = ['', '?', '?q', '? ', '?a=1&b=2']
 SFRAGS = ['', '#', '#f', '# ']
@@ -323,8 +323,16 @@ class Gen:
                 self.emit('probe %d' % a)
             else:
                 self.stat('alias:obj')
-                self.emit(self.pick(['aset %d %s %s' % (a, self.pick(SETTERS), self.pick(GETTERS)), 'aparse %d' % a, 'aparseb %d %s' % (a, self.arg(self.pick(RELS))),
-                                     'parse %d %s s%d' % (a, self.arg(self.pick(RELS)), a), 'sp %d aparse %s' % (a, self.arg(self.pick(['a', 'q', 'next', 'x'])))]))
+                self.emit(self.pick(['aset %d %s %s' % (a, self.pick(SETTERS), self.pick(GETTERS)), 'aparse %d' % a, 'aparsebg %d %s' % (a, self.pick(['href', 'protocol', 'pathname', 'search', 'path'])), 'aparseb %d %s' % (a, self.arg(self.pick(RELS))),
+                                     'parse %d %s s%d' % (a, self.arg(self.pick(RELS)), a), 'sp %d aparse %s' % (a, self.arg(self.pick(['a', 'q', 'next', 'x']))), 'sp %d aset2' % a]))
+        if self.r.randrange(12) == 0:
+            # "follow the next parameter": the input of parse() is a view of the URL's own search parameter
+            self.stat('alias:parse-own-param')
+            k = self.r.randrange(2)
+            self.emit('parse %d %s -' % (k, self.arg('http://h/p?x=1&next=' + self.pick(['https%3A%2F%2Fexample.org%2Fa%2Fvery%2Flong%2Fpath%2Fso%2Fthat%2Fit%2Fis%2Fon%2Fthe%2Fheap%3Fq%3D1%26r%3D2', 'a%3Ab', '..%2Fy', '%3A', 'file%3A%2F%2F%2FC%3A%2Fx']) + '&z=2')))
+            self.emit('sp %d get' % k)
+            self.emit('aparsesp %d %s' % (k, self.arg(self.pick(['next', 'next', 'x', 'nope']))))
+            self.emit('sp %d append %s %s' % (k, self.arg('k'), self.arg('v')))
         self.emit('dump 0'); self.emit('dump 1')
         if self.r.randrange(3) == 0: self.emit('probe %d' % self.r.randrange(2))
 
@@ -356,7 +364,12 @@ class Gen:
             # arguments that are views of the list's own names / values
             self.stat('alias:psp')
             if self.r.randrange(2): self.emit('psp 0 append %s %s' % (self.arg('next'), self.arg(self.pick(['a=1&b=2', 'next=x%26y&z', '', 'k=' + 'v' * 40 + '&a=b&c=d&e=f']))))
-            self.emit('psp 0 %s' % self.pick(['aparse %s' % self.arg(self.pick(['next', 'a', 'q', 'b'])), 'aappend', 'aset']))
+            if self.r.randrange(2):
+                # duplicates of a long name: set / del with a view of the LAST duplicate's name erase the pair the
+                # argument points into
+                ln = self.pick(['L' * 40, 'k', '\u00e4' * 20])
+                for v in ('1', '2', '3'): self.emit('psp 0 append %s %s' % (self.arg(ln), self.arg(v)))
+            self.emit('psp 0 %s' % self.pick(['aparse %s' % self.arg(self.pick(['next', 'a', 'q', 'b'])), 'aappend', 'aset', 'aset2', 'aset2', 'adel', 'adel2']))
             self.emit('psp 0 sort')
         if self.r.randrange(5) == 0:
             # a list known to be sorted receives an UNSORTED list from another object, then is sorted: every
@@ -369,8 +382,8 @@ class Gen:
         """C15: byte strings for the form parser, raw and escaped ill-formed UTF-8"""
         self.emit('case')
         self.stat('case:form')
-        alphabet = [0x26, 0x3D, 0x2B, 0x25, 0x34, 0x31, 0x46, 0x61, 0x3F, 0xC3, 0xA9, 0xFF, 0x20, 0x67]
-        n = self.r.randrange(0, 12)
+        alphabet = [0x26, 0x3D, 0x2B, 0x25, 0x34, 0x31, 0x46, 0x61, 0x3F, 0xC3, 0xA9, 0xFF, 0x20, 0x67, 0xE2, 0x82, 0xF0, 0x9F, 0x92, 0x78]
+        n = self.r.randrange(0, 16)
         b = [self.pick(alphabet) for _ in range(n)]
         # finding F4 (raw lead byte followed by an escaped continuation) is excluded from this stream:
         # no raw byte >= 0x80 directly before '%'
@@ -487,6 +500,7 @@ class Gen:
     # ---- the web-platform-tests data for the URL Standard (doc/wpt/: urltestdata.json, setters_tests.json):
     # the Standard's own conformance inputs; the expectations in the files are compared by tools/extra.py wpt
     _wpt = {}
+    wpt_missing = set()
     def wpt_data(self, name):
         if name not in Gen._wpt:
             import json as J
@@ -495,7 +509,9 @@ class Gen:
             repo = os.environ.get('VERIF_REPO', '/repo')
             def own(f):
                 try: return J.load(open(os.path.join(repo, 'test', 'data', f)))
-                except Exception: return [] if name != 'setters_tests.json' else {}
+                except Exception:
+                    Gen.wpt_missing.add(f)
+                    return [] if name != 'setters_tests.json' else {}
             if name == 'urltestdata.json': Gen._wpt[name] = [c for c in d + own('my-urltestdata.json') if isinstance(c, dict)]
             else: Gen._wpt[name] = [(st, c) for dd in (d, own('my-setters_tests.json')) for st, cs in dd.items() if isinstance(cs, list) and st != 'comment' for c in cs]
         return Gen._wpt[name]
@@ -507,7 +523,7 @@ class Gen:
             out = []
             for f, sort in (('urlencoded-parser.json', False), ('urlsearchparams-sort.json', True)):
                 try: out += [(sort, c) for c in J.load(open(os.path.join(repo, 'test', 'data', f))) if isinstance(c, dict)]
-                except Exception: pass
+                except Exception: Gen.wpt_missing.add(f)
             Gen._wpt['form'] = out
         return Gen._wpt['form']
     def s_wptform(self, k):
@@ -547,16 +563,82 @@ class Gen:
         starts = ['http://u:p@h:81/a/b?q=1#frag', 'non-spec:opaque  ?q#f', 'file:///C:/x/y', 'non-spec://h/p?q', 'http://h/p#f%20 x', 'http://h/?a b',
                   'http://h/?' + 'abcdefghijklmnopqrstuvwxyz0123456789' * 2, 'https://' + 'h' * 40 + '.example/' + 'p' * 40, 'non-spec:/.//p', 'ws://h', 'blob:http://h/x#f',
                   'http://h/a/../b?x#' + 'f' * 50]
+        # short URLs too: a serialization of at most 15 characters lives in the string's in-object buffer, and an
+        # object made by COPY has no reserve (a parsed one has length + 32)
+        starts += ['http://a/', 'a:b', 'x:/p?q#f', 'ws://h']
+        PG = ['href', 'protocol', 'pathname', 'search', 'hash', 'host', 'path']
         n = len(SETTERS) * len(GETTERS)
-        if k >= len(starts) * (n + 2): return False
-        u = starts[k // (n + 2)]; j = k % (n + 2)
+        m = n + 2 + 2 * len(PG)
+        if k >= len(starts) * m: return False
+        u = starts[k // m]; j = k % m
         self.emit('case')
-        self.emit('parse 0 8 %s -' % U(units(u, 8)))
+        if j >= n + 2 + len(PG):
+            # the object under test is a copy
+            self.emit('parse 1 8 %s -' % U(units(u, 8))); self.emit('obj copyc 0 1')
+        else: self.emit('parse 0 8 %s -' % U(units(u, 8)))
         if j < n: self.emit('aset 0 %s %s' % (SETTERS[j // len(GETTERS)], GETTERS[j % len(GETTERS)]))
         elif j == n: self.emit('aparse 0')
-        else: self.emit('aparseb 0 8 %s' % U(units('../x?y', 8)))
+        elif j == n + 1: self.emit('aparseb 0 8 %s' % U(units('../x?y', 8)))
+        else: self.emit('aparsebg 0 %s' % PG[(j - n - 2) % len(PG)])
         self.emit('set 0 hash 8 %s' % U(units('z', 8)))
         return True
+    def s_encraw(self):
+        """C10 / C06: URLSearchParams members with CHAR-typed ill-formed UTF-8 names and values — the input class of the
+        listed finding F3 (stored and compared raw). The library is compared with the code-shaped model inside the class,
+        so a change confined to it is still seen; the difference to the Standard-shaped column is the finding itself."""
+        self.emit('case')
+        self.stat('case:encraw')
+        def raw():
+            us = []
+            for _ in range(self.r.randrange(1, 4)):
+                us += self.pick(BAD8) if self.r.randrange(3) else units(self.pick(['a', 'b', '=', '&', '+', 'k']), 8)
+            return us
+        kind = self.pick(['psp', 'sp'])
+        if kind == 'sp': self.emit('parse 0 %s -' % self.arg(self.pick(['http://h/?a=1&b=2', 'non-spec:/p', 'http://h/p#f']))); self.emit('sp 0 get')
+        if self.r.randrange(3) == 0:
+            # the form parser on char input: ill-formed names AND values, in every position of the pair list
+            q = []
+            for i in range(self.r.randrange(1, 4)): q += (units('&', 8) if i else []) + raw() + units('=', 8) + raw()
+            self.emit('%s 0 %s 8 %s' % (kind, 'parse' if kind == 'sp' else self.pick(['ctor', 'parse']), U(q)))
+            self.emit('%s 0 sort' % kind)
+            return
+        for _ in range(self.r.randrange(1, 5)):
+            o = self.pick(['append', 'append', 'set', 'del', 'del2', 'has', 'has2', 'getv', 'getall', 'remove'])
+            if o in ('append', 'set', 'del2', 'has2'): self.emit('%s 0 %s 8 %s 8 %s' % (kind, o, U(raw()), U(raw())))
+            else: self.emit('%s 0 %s 8 %s' % (kind, o, U(raw())))
+        self.emit('%s 0 sort' % kind)
+    def s_ipv6_shape(self, k):
+        """C12: EVERY shape of piece list: 0..9 hex pieces x compression at every position (or none) x a trailing ':' /
+        '::' / nothing x an embedded IPv4 tail or not"""
+        shapes = []
+        for n in range(0, 10):
+            for pos in [None] + list(range(0, n + 1)):
+                for tail in ('', ':', '::', ':1.2.3.4', '1.2.3.4'):
+                    ps = [str(i + 1) for i in range(n)]
+                    if pos is None: t = ':'.join(ps)
+                    else: t = ':'.join(ps[:pos]) + '::' + ':'.join(ps[pos:])
+                    shapes.append(t + tail)
+        if k >= len(shapes): return False
+        self.emit('ipv6 %s' % U(units(shapes[k], 8)))
+        return True
+    def s_url_pfx(self, k):
+        """C04 / C01: EVERY prefix of key URL strings, without a base and against bases of the same scheme, in exactly sized
+        unterminated buffers: each look-ahead of each parser state is taken at the very end of the input"""
+        keys = ['http://u:p@h:81/a/../b?q#f', 'http:/x', 'http:\\\\h\\p', 'file:///C:/x/../y', 'file://h/C|/..', 'file:C|/x', 'non-spec://h:1/p/./q', 'non-spec:/.//p', '//h:8/p', '/\\h',
+                '?q#f', 'C|/x', '..//x', 'ws://[1::2]:80/', 'https://h:443', 'blob:http://h/x', '%2e%2E/%2e/x', 'http://%C3%A4%zz/', 'http://0x7f.1.', 'a:b  ']
+        bases = ['-', 't8:' + U(units('http://example.org/foo/bar', 8)), 't8:' + U(units('file:///C:/dir/file', 8)), 't8:' + U(units('non-spec://h/a/b', 8)), 't8:' + U(units('https://h/', 8))]
+        tot = 0
+        for key in keys:
+            n = (len(key) + 1) * len(bases)
+            if k < tot + n:
+                j = k - tot
+                p = key[:j // len(bases)]; b = bases[j % len(bases)]
+                e = (8, 16, 32)[(k + self.seed) % 3]
+                self.emit('case')
+                for _ in range(3): self.emit('parse 0 %d %s %s' % (e, U(units(p, e)), b))   # three consecutive argument forms
+                return True
+            tot += n
+        return False
     def s_enc_exh(self, k):
         """C10: all byte strings of length <= 3 over a 20-byte alphabet covering every lead/trail class"""
         alpha = [0x41, 0x7F, 0x80, 0x8F, 0x90, 0x9F, 0xA0, 0xBF, 0xC1, 0xC2, 0xDF, 0xE0, 0xE1, 0xED, 0xEF, 0xF0, 0xF1, 0xF4, 0xF5, 0xFF]
@@ -780,14 +862,14 @@ class Gen:
 
 STREAMS = {
     'url': Gen.s_url, 'set': Gen.s_set, 'obj': Gen.s_obj, 'psp': Gen.s_psp, 'form': Gen.s_form, 'host': Gen.s_host,
-    'enc': Gen.s_enc, 'ipv4': Gen.s_ipv4, 'ipv4ser': Gen.s_ipv4ser, 'ipv6': Gen.s_ipv6, 'ipv6ser': Gen.s_ipv6ser,
+    'enc': Gen.s_enc, 'encraw': Gen.s_encraw, 'ipv4': Gen.s_ipv4, 'ipv4ser': Gen.s_ipv4ser, 'ipv6': Gen.s_ipv6, 'ipv6ser': Gen.s_ipv6ser,
     'pct': Gen.s_pct, 'file': Gen.s_file, 'filert': Gen.s_file_rt, 'size': Gen.s_size,
 }
 EXH = {
     'hostascii': lambda g, k, a: g.s_hostascii(k), 'encexh': lambda g, k, a: g.s_enc_exh(k),
     'ipv4exh': lambda g, k, a: g.s_ipv4_exh(k, a or 4), 'ipv6exh': lambda g, k, a: g.s_ipv6_exh(k, a or 5),
     'pctexh': lambda g, k, a: g.s_pct_exh(k), 'member': lambda g, k, a: g.s_member(k), 'setexh': lambda g, k, a: g.s_set_exh(k, a),
-    'wpt': lambda g, k, a: g.s_wpt(k), 'wptset': lambda g, k, a: g.s_wptset(k), 'wptform': lambda g, k, a: g.s_wptform(k), 'filepfx': lambda g, k, a: g.s_file_pfx(k), 'aliasexh': lambda g, k, a: g.s_alias_exh(k),
+    'wpt': lambda g, k, a: g.s_wpt(k), 'wptset': lambda g, k, a: g.s_wptset(k), 'wptform': lambda g, k, a: g.s_wptform(k), 'filepfx': lambda g, k, a: g.s_file_pfx(k), 'aliasexh': lambda g, k, a: g.s_alias_exh(k), 'ipv6shape': lambda g, k, a: g.s_ipv6_shape(k), 'urlpfx': lambda g, k, a: g.s_url_pfx(k),
     'ipv6serexh': lambda g, k, a: (g.s_ipv6ser(k), k < 256 * 5 - 1)[1],
 }
 
